@@ -451,6 +451,26 @@ pub fn build(root: &Node, cfg: &LayoutCfg, rng: &mut Rng) -> Vec<u8> {
             }
         }
     }
+    // free space as another writer leaves it: in every second layout the free sectors and the free mini sectors
+    // still hold the bytes of whatever lived there (MS-CFB does not ask for them to be cleared)
+    if (total + n_mini) % 2 == 0 {
+        for id in 0..total.min(fat.len()) {
+            if fat[id] == FREE {
+                let base = off(id as u32);
+                for (k, x) in img[base..base + s].iter_mut().enumerate() {
+                    *x = 0xC0 | (k as u8 & 0x3F);
+                }
+            }
+        }
+        for m in 0..n_mini {
+            if minifat[m] == FREE && m * 64 / s < root_chain.len() {
+                let base = off(root_chain[m * 64 / s]) + (m * 64) % s;
+                for x in img[base..base + 64].iter_mut() {
+                    *x = 0xB7;
+                }
+            }
+        }
+    }
     img
 }
 
